@@ -477,6 +477,9 @@ def run(ctx) -> None:
 from ..selftest import V  # noqa: E402
 
 SELFTEST = [
+    V("short-segment fix-up under an extra condition (seeded C29-m5)", PT, "                    if _nk == 1:\n", "                    if _nk == 1 and np.linalg.norm(start - end) > 0:\n", "fire", "R29.4"),
+    V("band selection sorted before it reaches the tabulator (seeded C29-m6)", EK, "    tabulators_loc = {}\n",
+      "    if ibands is not None:\n        ibands = np.unique(np.array(ibands, dtype=int))\n    tabulators_loc = {}\n", "fire", "R29.1"),
     V("labels re-keyed before the point is appended", PT,
       "            K_list_refined.append(self.K_list[i])\n            if i in self.labels:\n                labels_refined[len(K_list_refined) - 1] = self.labels[i]",
       "            if i in self.labels:\n                labels_refined[len(K_list_refined) - 1] = self.labels[i]\n            K_list_refined.append(self.K_list[i])", "fire", "R29.2"),
